@@ -120,18 +120,16 @@ def scale_rec(rec, s):
 
 
 def rec_diff(a, b, fields=FIELDS8, scale=1.0):
-    """largest discrepancy between two records over `fields`; NaN pattern must agree"""
+    """largest discrepancy between two records over `fields`.  A ray that missed a surface is carried on with
+    non-finite coordinates (t = inf, then inf * 0 = NaN or inf * 1e-17 = -inf depending on rounding noise in a direction
+    cosine): a non-finite entry only has to be non-finite in the other record too ("lost" = "lost")"""
     worst = 0.0
     for k, f in enumerate(FIELDS8):
         if f not in fields:
             continue
         u, v = a[k], b[k]
-        if math.isnan(u) or math.isnan(v):
-            if math.isnan(u) != math.isnan(v):
-                return INF
-            continue
-        if math.isinf(u) or math.isinf(v):
-            if u != v:
+        if not math.isfinite(u) or not math.isfinite(v):
+            if math.isfinite(u) != math.isfinite(v):
                 return INF
             continue
         tol_scale = scale if f in ('x', 'y', 'z', 'opd') else 1.0
